@@ -38,11 +38,11 @@ def _norm(s):
 def signature(rc, err, user_fns=()):
     """(kind, [runtime frames]) of a failed run; kind None when the run did not fail."""
     text = err if isinstance(err, str) else err.decode(errors="replace")
-    m = re.search(r"ERROR: AddressSanitizer: ([\w-]+)", text)
+    m = re.search(r"ERROR: AddressSanitizer: (attempting double-free|attempting free[\w -]*?(?= \(| on)|[\w-]+)", text)
     mu = re.search(r"runtime error: ([^\n]*)", text)
     ma = re.search(r"Assertion [`'](.*?)' failed", text)
     if m:
-        kind = "asan:" + m.group(1)
+        kind = "asan:" + m.group(1).replace("attempting ", "").replace(" ", "-")
         if m.group(1) == "SEGV":
             z = re.search(r"The signal is caused by a (\w+) memory access", text)
             kind += ":" + (z.group(1) if z else "?")
@@ -85,6 +85,25 @@ def match_known(findings, kind, frames, shape):
                 and re.search(sg.get("shape_regex", ""), shape, re.S)):
             return f
     return None
+
+
+# ----------------------------------------------------------------------------- pool helper
+def _guard(args):
+    fn, a = args
+    try:
+        return ("ok", fn(a))
+    except BaseException:            # the exception travels as data: raising inside a pool worker or inside a loop over
+        import traceback             # common.pimap leaves the pool's terminate()/join() waiting for blocked workers
+        return ("error", traceback.format_exc())
+
+
+def pmap_all(fn, tasks):
+    """ordered parallel map, completed before any result is looked at; worker exceptions become HarnessError afterwards"""
+    out = list(common.pimap(_guard, [(fn, t) for t in tasks])) if tasks else []
+    for st, v in out:
+        if st != "ok":
+            raise common.HarnessError("worker failed:\n" + v)
+    return [v for _st, v in out]
 
 
 # ----------------------------------------------------------------------------- part (a): text families
@@ -141,20 +160,34 @@ def _user_fns(src):
 
 
 class Collector:
-    """groups failing elements by cause signature; keeps the smallest element per signature"""
+    """Groups failing elements by cause signature (error kind + top runtime frames) and keeps the smallest element per
+    signature; an element explained by an open known finding (kind, frames and statement shape all match) is counted
+    under that finding instead.  The last statement / operation of every element is listed in the summary."""
 
     def __init__(self, rep, findings):
         self.rep = rep
         self.findings = findings
-        self.groups = {}      # key -> dict(size, kind, frames, last, shape, files, summary, replay, count)
+        self.groups = {}
 
     def add(self, size, kind, frames, last, shape, files, what, replay_sh, confirm):
-        key = "%s|%s|%s" % (kind, " <- ".join(frames), last)
+        if not kind.startswith(("asan:", "ubsan:", "signal", "model:", "oob:")):
+            # the run stopped cleanly (failed runtime assertion, non-zero exit) without touching memory it does not own:
+            # a functional defect (C01/C04's business), recorded in the evidence but not a C20 violation
+            key = "%s|%s" % (kind, last)
+            d = self.rep.coverage.setdefault("stopped_without_memory_error", {})
+            d[key] = d.get(key, 0) + 1
+            self.rep.sample({"stopped_without_memory_error": key, "element": what}, cap=12)
+            return
+        kf = match_known(self.findings, kind, frames, shape)
+        key = ("known", kf["id"]) if kf is not None else ("viol", "%s|%s" % (kind, _norm(" <- ".join(frames))))
         g = self.groups.get(key)
-        if g is None or size < g["size"]:
-            n = g["count"] if g else 0
-            self.groups[key] = dict(size=size, kind=kind, frames=frames, last=last, shape=shape, files=files, what=what, replay=replay_sh, confirm=confirm, count=n)
-        self.groups[key]["count"] += 1
+        if g is None:
+            g = self.groups[key] = dict(size=None, count=0, lasts=[], kf=kf)
+        g["count"] += 1
+        if last not in g["lasts"]:
+            g["lasts"].append(last)
+        if g["size"] is None or size < g["size"]:
+            g.update(size=size, kind=kind, frames=frames, files=files, what=what, replay=replay_sh, confirm=confirm)
 
     def flush(self):
         for key in sorted(self.groups):
@@ -164,18 +197,18 @@ class Collector:
                 k2, f2 = g["confirm"]()
                 if (k2, f2) != (g["kind"], g["frames"]):
                     raise common.HarnessError("failure not reproducible for %s: replay gave %s %s" % (key, k2, f2))
-            kf = match_known(self.findings, g["kind"], g["frames"], g["shape"])
-            if kf is not None:
+            if g["kf"] is not None:
                 for _i in range(g["count"]):
-                    self.rep.known_finding(kf["id"], kf["what"])
+                    self.rep.known_finding(g["kf"]["id"], g["kf"]["what"])
                 continue
-            summary = "%s in %s; last statement/operation: %s; %s (%d element(s) with this signature)" % (
-                g["kind"], " <- ".join(g["frames"]) or "(no runtime frame)", g["last"], g["what"], g["count"])
-            self.rep.violation("c20:" + key, g["files"], summary, g["replay"])
+            summary = "%s in %s; minimal element: %s; %d element(s) with this signature, last statement/operation: %s" % (
+                g["kind"], " <- ".join(g["frames"]) or "(no runtime frame)", g["what"], g["count"], ", ".join(sorted(g["lasts"])[:12]) + (" ..." if len(g["lasts"]) > 12 else ""))
+            self.rep.violation("c20:" + key[1], g["files"], summary,
+                               'cd %s && ./check C20 --replay "$(cd "$(dirname "$0")" && pwd)"\n# by hand:\n# %s' % (common.VERIF, g["replay"].replace("\n", "\n# ")))
 
 
 def run_text_family(rep, col, kind, level_items, label):
-    """level_items: list of levels; each level a list of (name, payload, seq-or-None).  A level is run completely before
+    """level_items: list of levels; each level a list of (name, payload, seq-or-label) - a tuple is a T sequence, a string a label.  A level is run completely before
     the next one; sequences that contain an already failing sequence as a subsequence are not run."""
     failing = []          # sequences (tuples of op names) that failed
     nrun = nskip = 0
@@ -188,14 +221,14 @@ def run_text_family(rep, col, kind, level_items, label):
     for level in level_items:
         todo = []
         for nm, payload, seq in level:
-            if seq is not None and any(contains(seq, f) for f in failing):
+            if isinstance(seq, tuple) and any(contains(seq, f) for f in failing):
                 nskip += 1
                 continue
             todo.append((nm, payload, seq))
         seqof = dict((nm, seq) for nm, _p, seq in todo)
         srcof = dict((nm, p) for nm, p, _s in todo)
         tasks = [(kind, bi, [(nm, p) for nm, p, _s in todo[bi:bi + BATCH]]) for bi in range(0, len(todo), BATCH)]
-        for _k, items, res in common.pimap(_text_task, tasks):
+        for _k, items, res in pmap_all(_text_task, tasks):
             for nm, _p in items:
                 nrun += 1
                 r = res[nm]
@@ -206,7 +239,7 @@ def run_text_family(rep, col, kind, level_items, label):
                 if r[0] in ("compile", "markers"):
                     raise common.HarnessError("%s family element %s %s: %s" % (label, nm, "does not compile" if r[0] == "compile" else "lost its output markers", r[1][-1500:]))
                 kind_, frames = signature(r[1], r[2], _user_fns(single))
-                if seq is not None:
+                if isinstance(seq, tuple):
                     failing.append(seq)
                     shape = "\n".join(P.OPS[o] for o in seq)
                     last = seq[-1]
@@ -214,7 +247,7 @@ def run_text_family(rep, col, kind, level_items, label):
                     size = len(seq)
                 else:
                     shape = srcof[nm]
-                    last = nm.rsplit("_", 1)[-1] if kind == "B" else nm
+                    last = seq
                     what = "function %s" % nm
                     size = len(shape)
 
@@ -303,9 +336,9 @@ def part_a(rep, col, tier, tree):
 
     # ---- families B and X
     b = P.b_cases(tier)
-    nb, _s = run_text_family(rep, col, "B", [[(nm, src, None) for nm, src in b]], "B")
+    nb, _s = run_text_family(rep, col, "B", [b], "B")
     x = P.x_cases(tier)
-    nx, _s = run_text_family(rep, col, "X", [[(nm, src, None) for nm, src in x]], "X")
+    nx, _s = run_text_family(rep, col, "X", [x], "X")
     rep.count("states", nb + nx)
     rep.count("transitions", nb + nx)
     rep.coverage["B_boundary_functions"] = nb
@@ -337,8 +370,8 @@ STAT = re.compile(r"^STAT family=(\S+) histories=(\d+) ops=(\d+) checks=(\d+) fa
 
 def families(tier):
     q = tier == "quick"
-    fams = [("da:" + k, 5 if q else 7) for k in ("int", "u8", "float", "bool", "str", "arr", "st24", "st12", "st1")]
-    fams += [("li", 5 if q else 7), ("ls", 5 if q else 7), ("gc", 5 if q else 7), ("ns", 4 if q else 5)]
+    fams = [("da:" + k, 6 if q else 7) for k in ("int", "u8", "float", "bool", "str", "arr", "st24", "st12", "st1")]
+    fams += [("li", 6 if q else 8), ("ls", 6 if q else 8), ("gc", 6 if q else 7), ("ns", 4 if q else 5)]
     return fams
 
 
@@ -366,7 +399,7 @@ def part_b(rep, col, tier, tree):
         if rounds > 12:
             raise common.HarnessError("rt_probe: more than 12 exclusion rounds")
         nxt = []
-        for args, rc, o, e in common.pimap(_probe, pending):
+        for args, rc, o, e in pmap_all(_probe, pending):
             _m, fam, L, branch, ex = args
             st = STAT.search(o)
             for line in o.splitlines():
@@ -459,7 +492,7 @@ def run(tier):
         "part (a): programs stay inside the language's defined behaviour (NanoRef-classified for the enumerator layers; every index/pop/remove/slice of the text families is guarded by a length test); leaks are not violations (detect_leaks=0)",
         "part (a): the C compiler is clang with -fsanitize=address,undefined -fno-sanitize-recover=undefined plus nanoc's own flags (incl. -fwrapv) and -Wno-parentheses-equality; programs the front end or the C compiler refuse are counted, not judged (C04/C05)",
         "part (a): T = all sequences of <= 2 statements over %d statements + all triples over a %d-statement core; sequences extending an already failing sequence are not run; B = 7 element kinds x lengths around 8/16/32(/64) x 11 operations, generated List<T> for 1-4 field structs, list_int/list_string; X = all in-range (start,length) pairs of short strings" % (
-            len(P.OPS), 8 if tier == "quick" else len(P.CORE)),
+            len(P.OPS), 12 if tier == "quick" else len(P.CORE)),
         "part (a): not compiled by the native backend and therefore outside the alphabet: " + "; ".join(sorted(P.DROPPED)),
         "part (b): histories of length <= L (first operation = constructor choice): %s; indices: every in-range index for length <= 4, else {0,1,len/2,len-2,len-1}; 'fill' pushes until length == capacity; dyn_array_insert_* is declared in dyn_array.h but not defined anywhere, so it is not in the alphabet" % ", ".join("%s L=%d" % f for f in fams),
         "part (b): gc model from the documented contract: gc_alloc starts at 1, gc_struct_set_field retains the new and releases the old value, dyn_array_push_array borrows (no retain), reaching 0 frees at once and releases struct fields, gc_collect_cycles must not free anything still counted (cycle reclamation is not demanded); release is only issued while the model count of the harness' own references is > 0",
